@@ -471,6 +471,33 @@ where H: ElementHasher<BaseField = B> + Send + Sync {
         let pb = &c.bytes[ps.start..ps.end];
         let mut offs = Vec::new();
         if !pb.is_empty() { let nv = pb[0] as usize; let mut p = 1; for _ in 0..nv { if p >= pb.len() { break; } let nd = pb[p] as usize; p += 1; for _ in 0..nd { if p + dsz <= pb.len() { offs.push(p); } p += dsz; } } }
+        // structure-aware extension of the count-prefixed parts of the batch proof (count bytes AND the u32 length fixed):
+        // a well-formed surplus node vector (empty / one digest / two digests) appended, a surplus digest appended to an
+        // existing vector, an empty vector inserted in front
+        if !pb.is_empty() && pb[0] < 255 {
+            let sclass = format!("structured-extend:merkle-node-vector:{}", t.trim_end_matches(char::is_numeric));
+            let cs = lay.get("commitments");
+            let some_digest = c.bytes[cs.start..cs.start + dsz].to_vec();
+            let extras: Vec<(&str, Vec<u8>)> = vec![
+                ("an empty node vector appended", vec![0u8]),
+                ("a node vector holding one zero digest appended", { let mut v = vec![1u8]; v.extend(std::iter::repeat(0u8).take(dsz)); v }),
+                ("a node vector holding one commitment appended", { let mut v = vec![1u8]; v.extend_from_slice(&some_digest); v }),
+                ("a node vector holding two random digests appended", { let mut v = vec![2u8]; v.extend(r.bytes(2 * dsz)); v }),
+            ];
+            for (w, ex) in extras {
+                let mut b = pb.to_vec(); b[0] += 1; b.extend_from_slice(&ex);
+                judge::<B, H>(c, &splice(&c.bytes, ps, &b), &sclass, format!("{}: {}", t, w), stats, out);
+            }
+            { let mut b = vec![pb[0] + 1, 0u8]; b.extend_from_slice(&pb[1..]);
+              judge::<B, H>(c, &splice(&c.bytes, ps, &b), &sclass, format!("{}: an empty node vector inserted in front", t), stats, out); }
+            // a surplus digest at the end of the last non-trivial vector (its count byte incremented)
+            let nv = pb[0] as usize; let mut q = 1usize; let mut last: Option<(usize, usize)> = None;
+            for _ in 0..nv { if q >= pb.len() { break; } let nd = pb[q] as usize; last = Some((q, q + 1 + nd * dsz)); q += 1 + nd * dsz; }
+            if let Some((cnt, end)) = last { if end <= pb.len() && pb[cnt] < 255 {
+                let mut b = pb[..end].to_vec(); b[cnt] += 1; b.extend_from_slice(&some_digest); b.extend_from_slice(&pb[end..]);
+                judge::<B, H>(c, &splice(&c.bytes, ps, &b), &format!("structured-extend:merkle-node:{}", t.trim_end_matches(char::is_numeric)), format!("{}: a surplus digest appended to the last node vector", t), stats, out);
+            } }
+        }
         let class = format!("adaptive:merkle-node:{}", t.trim_end_matches(char::is_numeric));
         if offs.is_empty() { note_infeasible(stats, &class); continue; }
         for _ in 0..3 {
